@@ -120,6 +120,9 @@ def corpus_files(max_features=None):
 def cases(tier, seed):
     for m in sp.structures_upto(BOUNDS[tier]):
         yield ('S', m)
+    for m in sp.structures_upto(4, star=True):
+        if any(b == -1 for (_p, _a, b, _k) in sh.relations(m)):
+            yield ('S', m)
     for m in families():
         yield ('F', m)
     from . import rt
